@@ -143,8 +143,10 @@ type Conn struct {
 	OnIdle func()
 	// OnReadEnter is called whenever a reader (re-)enters ReadFrom: the previous datagram has been dealt with.
 	OnReadEnter func()
-	// NextWriteDelay, set by OnWrite, makes the current WriteTo take that long.
-	NextWriteDelay time.Duration
+	// writeDelay, set by OnWrite through SetWriteDelay, makes the WriteTo in progress *on that
+	// task* take that long (keyed by task: OnWrite may reach a scheduling point, and another
+	// writer must not pick up the delay meant for this one).
+	writeDelay map[int]time.Duration
 	// CloseErr is what Close returns the first time.
 	CloseErr error
 
@@ -256,12 +258,20 @@ func (c *Conn) WriteTo(b []byte, to net.Addr) (int, error) {
 	if c.OnWrite != nil {
 		c.OnWrite(append([]byte(nil), b...), to)
 	}
-	if d := c.NextWriteDelay; d > 0 {
+	if d := c.writeDelay[c.s.CurTask()]; d > 0 {
 		// a slow socket: the write itself takes (virtual) time
-		c.NextWriteDelay = 0
+		delete(c.writeDelay, c.s.CurTask())
 		simrt.Sleep(d, c.siteWrite)
 	}
 	return len(b), nil
+}
+
+// SetWriteDelay is called from OnWrite: the WriteTo the calling task is in takes d.
+func (c *Conn) SetWriteDelay(d time.Duration) {
+	if c.writeDelay == nil {
+		c.writeDelay = map[int]time.Duration{}
+	}
+	c.writeDelay[c.s.CurTask()] = d
 }
 
 func (c *Conn) Close() error {
